@@ -133,7 +133,10 @@ Inductive step_kind (m : meth) (s s' : shared) (p p' : pc) (l : lab) : Prop :=
 | SK_sent : forall k, l = LT TSent -> p = PSending k -> wbio s' = wbio s -> deque s' = deque s ->
     p' = after_flush m s' k -> step_kind m s s' p p' l
 | SK_rcvd : forall d, l = LT (TRcvd d) -> p = PRecving -> wbio s' = wbio s -> deque s' = deque s ->
-    p' = pcall m s' -> step_kind m s s' p p' l.
+    p' = pcall m s' -> step_kind m s s' p p' l
+(* with meta/fixes/C08_read_result_without_checkpoint.diff: a successful read returns at once *)
+| SK_lazy : forall x v, l = LSsl x -> p = PCall -> a_out x = SOk v -> m = MRead ->
+    wbio s' = wbio s ++ a_wdelta x -> deque s' = deque s -> p' = PEnd (ROk v) -> step_kind m s s' p p' l.
 
 Lemma step_table : forall m b s p l s' p' a,
   step m b s p l = Some (s', p', a) -> clab l = true ->
@@ -146,8 +149,11 @@ Proof.
     destruct (Hmatch x eq_refl) as [Hm1 Hm2]. rewrite Hm1, Hm2, meth_eqb_refl, Nat.eqb_refl in H. cbn [andb negb] in H.
     cbv zeta in H. destruct (a_out x) eqn:Eo.
     + destruct m.
-      * inversion H; subst. eapply (SK_ok _ _ _ _ _ _ x v); try reflexivity; try exact Eo; congruence.
-      * inversion H; subst. eapply (SK_ok _ _ _ _ _ _ x v); try reflexivity; try exact Eo; congruence.
+      * unfold done_pc in H. cbn [meth_eqb] in H. rewrite andb_false_r in H.
+        inversion H; subst. eapply (SK_ok _ _ _ _ _ _ x v); try reflexivity; try exact Eo; congruence.
+      * unfold done_pc in H. cbn [meth_eqb] in H. rewrite andb_true_r in H. destruct (f_lazyread fl).
+        -- inversion H; subst. eapply (SK_lazy _ _ _ _ _ _ x v); try reflexivity; exact Eo.
+        -- inversion H; subst. eapply (SK_ok _ _ _ _ _ _ x v); try reflexivity; try exact Eo; congruence.
       * unfold popped. cbn [deque set_wbio] in H.
         destruct (deque s) as [| d rest] eqn:Ed.
         -- inversion H; subst. eapply (SK_wdone _ _ _ _ _ _ x v); try reflexivity; try exact Eo.
@@ -162,7 +168,8 @@ Proof.
               ** inversion H; subst. eapply (SK_wmore _ _ _ _ _ _ x v); try reflexivity; try exact Eo.
                  --- unfold popped; cbn [deque set_deque set_wbio]; rewrite Ed, Lt; reflexivity.
                  --- cbn. discriminate.
-      * inversion H; subst. eapply (SK_ok _ _ _ _ _ _ x v); try reflexivity; try exact Eo; congruence.
+      * unfold done_pc in H. cbn [meth_eqb] in H. rewrite andb_false_r in H.
+        inversion H; subst. eapply (SK_ok _ _ _ _ _ _ x v); try reflexivity; try exact Eo; congruence.
     + inversion H; subst. eapply (SK_wantr _ _ _ _ _ _ x); try reflexivity; exact Eo.
     + inversion H; subst. eapply (SK_wantw _ _ _ _ _ _ x); try reflexivity; exact Eo.
     + inversion H; subst. eapply (SK_err _ _ _ _ _ _ x); try reflexivity; [rewrite Eo; reflexivity | discriminate].
@@ -226,7 +233,8 @@ Lemma call_facts : forall i m n data i' o wd,
   (m = MHandshake -> ok_out o = true -> i_stage i' = 2) /\
   i_sent_cn i' = i_sent_cn i /\
   (err_out o = true -> wd = []) /\
-  (m = MWrite -> i_stage i = 2 -> i_sent_cn i = false -> o = SOk (length data)).
+  (m = MWrite -> i_stage i = 2 -> i_sent_cn i = false -> o = SOk (length data)) /\
+  (m = MRead -> wd = []).
 Proof.
   intros i m n data i' o wd Hm H Hle. destruct m; cbn [call] in H; [| | | congruence].
   - destruct (hs_result _ _ _ _ H Hle) as [A0 [A [B [C Dd]]]]. repeat split; auto; discriminate.
@@ -459,17 +467,19 @@ Proof.
                  i_sent_cn (e_ideal e') = false /\
                  (forall x, lb = LSsl x -> err_out (a_out x) = true -> a_wdelta x = []) /\
                  (forall x, lb = LSsl x -> m = MHandshake -> ok_out (a_out x) = true -> i_stage (e_ideal e') = 2) /\
-                 (forall x, lb = LSsl x -> m = MWrite -> exists v, a_out x = SOk v)).
+                 (forall x, lb = LSsl x -> m = MWrite -> exists v, a_out x = SOk v) /\
+                 (forall x, lb = LSsl x -> m = MRead -> a_wdelta x = [])).
   { destruct Hid as [[i1 [o [wd [Hl [Cl [S1 [S2 _]]]]]]] | [Hl [S1 [S2 _]]]].
-    - destruct (call_facts E D M _ _ _ _ _ _ _ Hnu Cl (ei_le e I)) as [F0 [F1 [F2 [F3 [F4 F5]]]]].
+    - destruct (call_facts E D M _ _ _ _ _ _ _ Hnu Cl (ei_le e I)) as [F0 [F1 [F2 [F3 [F4 [F5 F6]]]]]].
       rewrite S1, S2, F3, (ei_cn e I). repeat split; auto.
       + intros x Hx He. rewrite Hl in Hx. inversion Hx; subst x. cbn in *. auto.
       + intros x Hx Hm Ho. rewrite Hl in Hx. inversion Hx; subst x. cbn in *. auto.
       + intros x Hx Hm. rewrite Hl in Hx. inversion Hx; subst x. cbn. eexists. apply F5; auto.
         * apply (ei_s2 e I). exists t, tk. split; [exact Hn |]. fold m. rewrite Hm. discriminate.
         * apply (ei_cn e I).
+      + intros x Hx Hm. rewrite Hl in Hx. inversion Hx; subst x. cbn. auto.
     - rewrite S1, S2. repeat split; auto using (ei_le e I), (ei_cn e I); intros x Hx; exfalso; eapply Hl; eauto. }
-  destruct Hid' as [Hle [Hmono [Hcn [Herr [Hhs Hwr]]]]].
+  destruct Hid' as [Hle [Hmono [Hcn [Herr [Hhs [Hwr Hrd]]]]]].
   (* tasks of e' *)
   assert (Hnew : nth_error (tasks_of e') t = Some {| t_meth := m; t_buf := t_buf tk; t_pc := p1 |})
     by (rewrite Ht; eapply nth_error_set_nth_eq; eauto).
@@ -487,7 +497,8 @@ Proof.
     intros t' tk' H' Hm'. destruct (Hcase _ _ H') as [[-> ->] | [Hd Ho]]; [| exact (ei_wr e I _ _ Ho Hm')].
     cbn in Hm'. cbn [t_pc]. pose proof (ei_wr e I _ _ Hn Hm') as Wp. fold p in Wp.
     destruct SK as [x v Hl Hp Ho Hm2 | x v Hl Hp Ho Hm2 W Dq Dn Hp1 | x v Hl Hp Ho Hm2 W Dq Dn Hp1 | x Hl Hp Ho | x Hl Hp Ho
-                   | x r Hl Hp Ho W0 Dq0 Hp10 Hnr | k Hl Hp L W Dq Hp1 | k Hl Hp L W Es Hp1 | n Hl Hp | k Hl Hp W Dq Hp1 | d Hl Hp];
+                   | x r Hl Hp Ho W0 Dq0 Hp10 Hnr | k Hl Hp L W Dq Hp1 | k Hl Hp L W Es Hp1 | n Hl Hp | k Hl Hp W Dq Hp1 | d Hl Hp
+                   | x v Hl Hp Ho Hm2 W Dq Hp1];
       try congruence.
     all: try (destruct (Hwr _ Hl Hm') as [v' Hv']; rewrite Hv' in *; discriminate).
     all: try (rewrite Hp in Wp; discriminate).
@@ -504,7 +515,8 @@ Proof.
       intros ->. rewrite Hn in Hu. inversion Hu; subst tku. fold m p in Fu. congruence. }
     assert (Fl : forall k, flush_pc s1 k = PFlush k \/ wbio s1 = []) by (intros k; destruct (flush_pc_cases fl s1 k) as [X | [X _]]; auto).
     destruct SK as [x v Hl Hp Ho Hm2 W Dq Hp1 | x v Hl Hp Ho Hm2 W Dq Dn Hp1 | x v Hl Hp Ho Hm2 W Dq Dn Hp1 | x Hl Hp Ho W Dq Hp1 | x Hl Hp Ho W Dq Hp1
-                   | x r Hl Hp Ho W Dq Hp1 Hnr | k Hl Hp L W Dq Hp1 | k Hl Hp L W Es Hp1 | n Hl Hp L W Dq Hp1 | k Hl Hp W Dq Hp1 | d Hl Hp W Dq Hp1].
+                   | x r Hl Hp Ho W Dq Hp1 Hnr | k Hl Hp L W Dq Hp1 | k Hl Hp L W Es Hp1 | n Hl Hp L W Dq Hp1 | k Hl Hp W Dq Hp1 | d Hl Hp W Dq Hp1
+                   | x v Hl Hp Ho Hm2 W Dq Hp1].
     + apply Self. subst p1. destruct (Fl (KRet v)) as [-> | X]; [reflexivity | congruence].
     + apply Self. subst p1. unfold flusher. rewrite Hm2. reflexivity.
     + apply Self. subst p1. destruct (Fl (KRet 0)) as [-> | X]; [reflexivity | congruence].
@@ -519,6 +531,8 @@ Proof.
     + apply Other; [exact W | rewrite Hp; reflexivity].
     + apply Other; [exact W | rewrite Hp; reflexivity].
     + apply Other; [exact W | rewrite Hp; reflexivity].
+    + (* a successful read that returns at once: it has produced nothing, and it was not the one who would flush *)
+      apply Other; [rewrite W, (Hrd x Hl Hm2), app_nil_r; reflexivity | unfold flusher; rewrite Hp, Hm2; reflexivity].
   - (* a non-empty backlog has a send_all call that will write it *)
     rewrite Hs1. intros Hw.
     assert (Other : deque s1 = deque s -> dwit m p = false ->
@@ -529,7 +543,8 @@ Proof.
     assert (NotW : forall x, lb = LSsl x -> (forall v, a_out x <> SOk v) -> dwit m p = false).
     { intros x Hl Hno. unfold dwit. destruct m eqn:Em; try reflexivity. destruct (Hwr x Hl eq_refl) as [v Hv]. exfalso. eapply Hno; eauto. }
     destruct SK as [x v Hl Hp Ho Hm2 W Dq Hp1 | x v Hl Hp Ho Hm2 W Dq Dn Hp1 | x v Hl Hp Ho Hm2 W Dq Dn Hp1 | x Hl Hp Ho W Dq Hp1 | x Hl Hp Ho W Dq Hp1
-                   | x r Hl Hp Ho W Dq Hp1 Hnr | k Hl Hp L W Dq Hp1 | k Hl Hp L W Es Hp1 | n Hl Hp L W Dq Hp1 | k Hl Hp W Dq Hp1 | d Hl Hp W Dq Hp1].
+                   | x r Hl Hp Ho W Dq Hp1 Hnr | k Hl Hp L W Dq Hp1 | k Hl Hp L W Es Hp1 | n Hl Hp L W Dq Hp1 | k Hl Hp W Dq Hp1 | d Hl Hp W Dq Hp1
+                   | x v Hl Hp Ho Hm2 W Dq Hp1].
     + apply Other; [exact Dq |]. unfold dwit. destruct m; try reflexivity. congruence.
     + exists t. eexists. split; [exact Hnew |]. cbn. subst p1. unfold dwit. rewrite Hm2. reflexivity.
     + congruence.
@@ -541,6 +556,7 @@ Proof.
     + apply Other; [exact Dq |]. unfold dwit. rewrite Hp. destruct m; reflexivity.
     + apply Other; [exact Dq |]. unfold dwit. rewrite Hp. destruct m; reflexivity.
     + apply Other; [exact Dq |]. unfold dwit. rewrite Hp. destruct m; reflexivity.
+    + apply Other; [exact Dq |]. unfold dwit. rewrite Hm2. reflexivity.
   - (* at most one pending call that may need to read *)
     assert (Back : forall t' tk', nth_error (tasks_of e') t' = Some tk' -> pending_reader tk' = true ->
                    exists tk0, nth_error (tasks_of e) t' = Some tk0 /\ pending_reader tk0 = true).
@@ -559,7 +575,8 @@ Proof.
       { intros s0 k. destruct k; cbn; auto. rewrite PcHS. auto. }
       assert (Cases : ret_pc p = true \/ exists x, lb = LSsl x /\ ok_out (a_out x) = true).
       { destruct SK as [x v Hl Hp Ho Hm2 W Dq Hp1 | x v Hl Hp Ho Hm2 W Dq Dn Hp1 | x v Hl Hp Ho Hm2 W Dq Dn Hp1 | x Hl Hp Ho W Dq Hp1 | x Hl Hp Ho W Dq Hp1
-                       | x r Hl Hp Ho W Dq Hp1 Hnr | k Hl Hp L W Dq Hp1 | k Hl Hp L W Es Hp1 | n Hl Hp L W Dq Hp1 | k Hl Hp W Dq Hp1 | d Hl Hp W Dq Hp1];
+                       | x r Hl Hp Ho W Dq Hp1 Hnr | k Hl Hp L W Dq Hp1 | k Hl Hp L W Es Hp1 | n Hl Hp L W Dq Hp1 | k Hl Hp W Dq Hp1 | d Hl Hp W Dq Hp1
+                   | x v Hl Hp Ho Hm2 W Dq Hp1];
           try congruence.
         - right. exists x. rewrite Ho. auto.
         - exfalso. subst p1. destruct (flush_pc_cases fl s1 (KRead (feeds s1))) as [X | [_ [[n [_ X]] | [v [X _]]]]];
@@ -587,7 +604,8 @@ Proof.
       { intros s0. destruct (pcall_props m s0) as [_ [X _]]. apply X. intros Heq. rewrite Hm' in Heq. discriminate. }
       assert (Cases : (exists x, lb = LSsl x /\ a_out x = SWantRead) \/ (readwait p = true /\ (forall x, lb <> LSsl x) /\ rcvd lb = [])).
       { destruct SK as [x v Hl Hp Ho Hm2 W Dq Hp1 | x v Hl Hp Ho Hm2 W Dq Dn Hp1 | x v Hl Hp Ho Hm2 W Dq Dn Hp1 | x Hl Hp Ho W Dq Hp1 | x Hl Hp Ho W Dq Hp1
-                       | x r Hl Hp Ho W Dq Hp1 Hnr | k Hl Hp L W Dq Hp1 | k Hl Hp L W Es Hp1 | n Hl Hp L W Dq Hp1 | k Hl Hp W Dq Hp1 | d Hl Hp W Dq Hp1];
+                       | x r Hl Hp Ho W Dq Hp1 Hnr | k Hl Hp L W Dq Hp1 | k Hl Hp L W Es Hp1 | n Hl Hp L W Dq Hp1 | k Hl Hp W Dq Hp1 | d Hl Hp W Dq Hp1
+                   | x v Hl Hp Ho Hm2 W Dq Hp1];
           try congruence.
         - exfalso. subst p1. destruct (flush_pc_cases fl s1 (KRet v)) as [X | [_ [[n [X _]] | [v0 [_ X]]]]];
             try rewrite X in Hrw; try discriminate.
@@ -600,7 +618,8 @@ Proof.
         - right. subst lb. rewrite Hp. split; [reflexivity |]. split; [intros x Hx; discriminate | reflexivity].
         - right. subst p1 lb. rewrite Hp. split; [| split; [intros x Hx; discriminate | reflexivity]].
           destruct k; cbn in Hrw |- *; try reflexivity; try discriminate. rewrite PcR in Hrw. discriminate.
-        - exfalso. subst p1. rewrite PcR in Hrw. discriminate. }
+        - exfalso. subst p1. rewrite PcR in Hrw. discriminate.
+        - subst p1. discriminate. }
       destruct Cases as [[x [Hl Ho]] | [Rw [Hns Hrc]]].
       * destruct Hid as [[i1 [o [wd [Hl' [Cl [_ [_ [R1 [P1 G1]]]]]]]]] | [Hl' _]]; [| exfalso; eapply Hl'; eauto].
         rewrite Hl' in Hl. inversion Hl; subst x. cbn in Ho. subst o.
